@@ -12,6 +12,8 @@ def decor_spec(rng, sync, wrap_ok=True):
          "listen": rng.random() < 0.25, "ewma": False, "wrap": []}
     if wrap_ok and rng.random() < 0.35:
         d["wrap"] = rng.sample(["oncomplete", "onabort", "meta", "custom"], rng.randint(1, 3))
+    # a decorator may implement several of the optional interfaces at once
+    d["ewma"] = rng.random() < 0.15
     return d
 
 
@@ -29,6 +31,7 @@ def gen_base(rng, sid, family="base", n=None, q=None, refresh="auto", pop=None, 
     bars = []
     finish = {}
     used_trigger = set()
+    seq_bars = set()
     for i in range(1, n + 1):
         name = "b%d" % i
         total = rng.choice([0, -1, 1, 2, 2, 3, 3])
@@ -42,6 +45,7 @@ def gen_base(rng, sid, family="base", n=None, q=None, refresh="auto", pop=None, 
         if ext and rng.random() < 0.2:
             op["ext"] = rng.randint(1, 2)
             op["extrev"] = rng.random() < 0.3
+            op["extfrag"] = rng.random() < 0.3
         if rng.random() < 0.15:
             op["trim"] = True
         for si, key in enumerate(["pre", "app"]):
@@ -94,6 +98,7 @@ def gen_base(rng, sid, family="base", n=None, q=None, refresh="auto", pop=None, 
         # property's domain): a bar that uses it is driven by one client, with non-decreasing values
         seq_bar = any(s["op"] == "setcur" for s in steps)
         if seq_bar:
+            seq_bars.add(name)
             lo = 0
             for s in steps:
                 if s["op"] == "setcur":
@@ -134,8 +139,25 @@ def gen_base(rng, sid, family="base", n=None, q=None, refresh="auto", pop=None, 
             if fin["op"] != "abort":
                 fin = {"op": "incr", "b": p, "n": 50}
             finish[p] = (0, fin)
-    for name, (c, fin) in finish.items():
+    order = list(finish)
+    if allow_queue and not late_queue:
+        # some successors finish while they are still parked: their finisher runs before the predecessor's
+        succ = {o["b"]: o["after"] for o in progs[0] if o["op"] == "add" and o.get("after")}
+        early = {b for b in succ if rng.random() < 0.4 and b not in seq_bars}   # (a bar that uses SetCurrent keeps its one driver)
+        for b in early:
+            finish[b] = (0, finish[b][1])
+        def depth(b):
+            return 0 if b not in succ else 1 + depth(succ[b])
+        order.sort(key=lambda b: (0 if b in early else 1, -depth(b)))
+    for name in order:
+        c, fin = finish[name]
         progs[c].append(fin)
+        if not allow_queue and rng.random() < 0.25:
+            # calls on a bar that has left the container while the container lives on
+            progs[c].append({"op": "barwait", "b": name})
+            progs[c].append({"op": "prio", "b": name, "n": rng.randint(-3, 5), "flag": rng.random() < 0.3})
+            if rng.random() < 0.5:
+                progs[c].append({"op": rng.choice(["incr", "refill", "abort", "get"]), "b": name, "n": 1, "flag": False})
     # text
     nw = 0
     for c in range(nclients):
@@ -200,10 +222,18 @@ def gen_lin(rng, sid):
     cfg = {"q": -1, "refresh": rng.choice(["auto", "auto", "none"]), "pop": False, "notifier": False, "width": 120,
            "delay": False, "outfault": 0, "ctx": False}
     progs = [[] for _ in range(k)]
-    pre = [decor_spec(rng, False, wrap_ok=False)] if rng.random() < 0.5 else []
-    if pre and rng.random() < 0.5:
-        pre[0]["ewma"] = True
-    progs[0].append({"op": "add", "b": "b1", "total": total, "pre": pre})
+    # 0-2 decorators; moving-average ones (every sample must reach each of them) and one carrying the library's
+    # average ETA / speed decorators, whose start time Bar.DecoratorAverageAdjust rewrites while frames are drawn
+    pre = [decor_spec(rng, False, wrap_ok=False) for _ in range(rng.choice([0, 1, 1, 2, 2]))]
+    for d in pre:
+        d["ewma"] = rng.random() < 0.6
+    app = []
+    avg = rng.random() < 0.5
+    if avg:
+        d = decor_spec(rng, False, wrap_ok=False)
+        d["avg"] = True
+        app.append(d)
+    progs[0].append({"op": "add", "b": "b1", "total": total, "pre": pre, "app": app})
     for c in range(k):
         for _ in range(rng.randint(2, 5)):
             r = rng.random()
@@ -219,12 +249,20 @@ def gen_lin(rng, sid):
                 progs[c].append({"op": "settotal", "b": "b1", "n": rng.randint(-1, 4), "flag": rng.random() < 0.3})
             elif r < 0.84 and total <= 0:
                 progs[c].append({"op": "trigger", "b": "b1"})
-            elif r < 0.9:
+            elif r < 0.88:
                 progs[c].append({"op": "refill", "b": "b1", "n": rng.randint(0, 3)})
+            elif r < 0.93 and avg:
+                progs[c].append({"op": "avgadjust", "b": "b1", "n": rng.randint(0, 5)})
             elif r < 0.95:
                 progs[c].append({"op": "abort", "b": "b1", "flag": rng.random() < 0.3})
             else:
                 progs[c].append({"op": "getcur", "b": "b1"})
+    if avg:
+        # an adjustment of the averages followed by a pause: frames are drawn while the client is elsewhere
+        for c in range(k):
+            if rng.random() < 0.6:
+                pos = rng.randint(1 if c == 0 else 0, len(progs[c]))
+                progs[c][pos:pos] = [{"op": "avgadjust", "b": "b1", "n": rng.randint(0, 5)}, {"op": "pause"}]
     progs[0].append({"op": "abort", "b": "b1", "flag": False})
     progs[0].append({"op": "wait"})
     for o in ("getcur", "getcomp", "getab"):
@@ -259,6 +297,20 @@ def family(name, rng, sid):
     if name == "manual":
         sc = gen_base(rng, sid, "manual", refresh="manual", allow_stop=rng.random() < 0.3)
         sc["cfg"]["autotoo"] = rng.random() < 0.5
+        return sc
+    if name == "manualqueue":
+        # a bar parked behind its predecessor may finish there: without auto-refresh a finished bar's goroutine exits at once
+        return gen_base(rng, sid, "manualqueue", n=rng.randint(2, 4), refresh="manual", allow_queue=True)
+    if name == "tall":
+        # frames exactly as high as the row limit of a non-terminal output (the container width), or one row less
+        sc = gen_base(rng, sid, "tall", n=rng.randint(1, 3), ext=False)
+        w = next(i for i, o in enumerate(sc["clients"][0]) if o["op"] == "wait")
+        adds = [o for o in sc["clients"][0][:w] if o["op"] == "add"]
+        sc["cfg"]["width"] = 120
+        rows = 120 - rng.choice([0, 0, 1])
+        o = rng.choice(adds)
+        o["ext"] = rows - len(adds)
+        o["extrev"] = rng.random() < 0.3
         return sc
     if name == "none":
         return gen_base(rng, sid, "none", refresh="none", allow_stop=rng.random() < 0.3)
